@@ -37,7 +37,7 @@ def shrink_reconcile(case):
 
 ENGINES = {
     "ordinals": {"trivial_tags": {"noann", "empty", "bad"}},
-    "reconcile": {"trivial_tags": {"noop", "bad"}, "shrink": shrink_reconcile},
+    "reconcile": {"trivial_tags": {"noop.par", "noop.mono", "deleting", "bad"}, "shrink": shrink_reconcile},
 }
 
 
@@ -70,13 +70,53 @@ FEATURES = {}
 
 # ---------------------------------------------------------------- properties
 
+RC_RULE = ("reconcile: random snapshots, r<=6, 0-4 slots (inside / above / negative / int32 extremes), pods over 20 classes (phase x ready x terminating x "
+           "revision in {update, current, third, none}) at ordinals 0..bound+1 in three profiles (mess, near-steady, mid-rollout), unparsable names, "
+           "duplicate ordinals inside the desired set, four policy strings, four strategy strings, partition in {no block, block without partition, negative, 0, inside, "
+           "= bound, beyond}, deleting sets, stale stored status, keyed single/double faults on create/delete/update/status-write; thorough adds the exhaustive "
+           "small scope (r<=3, slots subset of {0,1,2}, ordinals 0..3, 8 pod classes, both policies, rolling/OnDelete, 3 partitions, 2 revision pairs, 2 legacy boundaries). "
+           "non-trivial = the model's branch tag is not noop/deleting; distinct = distinct case line")
+
+
+def rc(quick=40000, thorough=400000, proj=None, enum=("small",)):
+    return {"engine": "reconcile", "quick": quick, "thorough": thorough, "enum_thorough": list(enum), "proj": proj}
+
+
+def proj_creates(case, o):
+    return creates(o)
+
+
+def proj_deletes(case, o):
+    return deletes(o) + ["out=" + o.get("out", "")]
+
+
+def proj_create_delete(case, o):
+    return [a for a in acts(o) if not a.startswith("update:")]
+
+
+def proj_status(case, o):
+    return (o.get("status"), o.get("written"))
+
+
+def proj_panic(case, o):
+    return o.get("out") == "panic"
+
+
 PROPS = {
+    "C03": {"module": "Asts.Props.C03", "claimed": False, "runs": [rc(proj=proj_deletes)], "rule": RC_RULE},
+    "C04": {"module": "Asts.Props.C04", "claimed": False, "runs": [rc(proj=proj_creates)], "rule": RC_RULE},
+    "C05": {"module": "Asts.Props.C05", "claimed": False, "runs": [rc(proj=proj_create_delete)], "rule": RC_RULE},
+    "C07": {"module": "Asts.Props.C07", "claimed": False, "runs": [rc(proj=proj_create_delete)], "rule": RC_RULE},
+    "C12": {"module": "Asts.Props.C12", "claimed": False, "runs": [rc(proj=proj_status)], "rule": RC_RULE},
+    "C14": {"module": "Asts.Props.C14", "claimed": False, "runs": [rc(proj=proj_create_delete)], "rule": RC_RULE},
+    "C15": {"module": "Asts.Props.C15", "claimed": False, "runs": [rc(proj=proj_panic)], "rule": RC_RULE},
     "C01": {
         "module": "Asts.Props.C01",
         "runs": [
             {"engine": "ordinals", "quick": 30000, "thorough": 200000, "enum_thorough": ["all"], "proj": proj_all},
+            rc(quick=20000, thorough=200000, proj=proj_creates),
         ],
-        "rule": "ordinals: r in 0..2000 (mostly < 12), annotation nil/absent/raw; raw = valid JSON int arrays with slots below/inside/above the range, "
+        "rule": RC_RULE + " || ordinals: r in 0..2000 (mostly < 12), annotation nil/absent/raw; raw = valid JSON int arrays with slots below/inside/above the range, "
                 "negatives, int32 extremes, duplicates, null elements, JSON whitespace, plus a malformed stream (fixed list + one-byte mutations); "
                 "thorough adds every r <= 6 x every subset of {-2..9}. non-trivial = the annotation parses to a non-empty slot set or is malformed; distinct = distinct case line",
         "assumptions": ["r + |slots| < 2^31 (int32 counter of the range-extension loop does not overflow; the annotation size limit enforces it)"],
